@@ -41,6 +41,9 @@ func (t twinsJSON) Settings() Settings {
 }
 
 func (t *twinsJSON) NextScenario() (Scenario, error) {
+	if t.scenario >= len(t.Scenarios) {
+		return nil, io.EOF
+	}
 	var s Scenario
 	err := json.Unmarshal(t.Scenarios[t.scenario], &s)
 	t.scenario++
